@@ -185,7 +185,7 @@ NOT_APPLICABLE = {
     "C26": "quantifies over schedules (same reason as C06)",
     "C27": "relational property of two whole links",
     "C28": "relational property of whole links under different options",
-    "C32": "find_match runs over hashbrown tables keyed by whole symbol names (foldhash over a symbolic-length name), glob::Pattern and C++ demangling; the rest is table emission over Layout",
+    "C32": "find_match matches through glob::Pattern (does not finish under CBMC) and a C++ demangler; its exact-name tables could be stubbed as in C15/C33, but the oracle could not be written with confidence: GNU ld's precedence between literal, wildcard and `*` patterns across version nodes (elflink.c, bfd_elf_link_assign_sym_version: `local: *` lowest, later wildcards override earlier ones) differs in corner cases from the lld-style rule wild documents, and a wrong transcription would raise false alarms; the rest of the property is table emission over Layout",
     "C34": "a whole-tool property over parsed binaries and a disassembler (iced-x86)",
     "C35": "pipe/semaphore state across processes and Drop order; OS semantics",
     "C37": "whole-output statement over Layout and input ordering across parallel loaders",
